@@ -8,6 +8,7 @@ import (
 	"encoding/json"
 	"fmt"
 	"math/big"
+	"pgregory.net/rapid"
 	"sort"
 	"strings"
 	"time"
@@ -472,4 +473,14 @@ func notRapid(r interface{}) interface{} {
 		panic(r)
 	}
 	return r
+}
+
+// Spell renders an address for a message or request field: bech32 has an all lower case and an all
+// upper case spelling of every address, both valid and both naming the same account.  One draw in
+// five is the upper case one.
+func Spell(t *rapid.T, label string, a sdk.AccAddress) string {
+	if rapid.IntRange(0, 4).Draw(t, label+"_upper") == 0 {
+		return strings.ToUpper(a.String())
+	}
+	return a.String()
 }
